@@ -93,6 +93,18 @@ def gen_c15(tier, R, off):
             for t in subs[:5]:
                 out.append(bi(off, "replace", [st, x, t]))
         out.append(f"(poscoh _ {st})")
+    # letter case beyond ASCII: every text against its own upper-, lower- and swapped-case spelling (and those of the other texts), through the per-character tables of the model
+    for t in C15_STRS:
+        for u in {t.upper(), t.lower(), t.swapcase(), t.title(), t.casefold()}:
+            out.append(bi(off, "same_text", [s(t), s(u)]))
+            out.append(bi(off, "lowercase", [s(u)]))
+            out.append(bi(off, "uppercase", [s(u)]))
+    if off == 1:
+        # the model's case tables equal char::to_lowercase / to_uppercase of the toolchain on the code space
+        blocks = list(range(0, 0x110000, 0x1000)) if tier == 'thorough' else [0, 0x1000, 0x2000, 0xa000, 0xf000, 0x10000, 0x11000, 0x16000, 0x1e000, 0x2f000, 0x10f000]
+        for lo in blocks:
+            for q in range(4):
+                out.append(f"(unicase _ {lo + q * 0x400} {lo + q * 0x400 + 0x3ff})")
     elems = [num(1.0), s("1"), b(True), num(3.0), s("b"), arr(num(1.0)), arr(), num(0.0), s("x"), num(NAN), s("abc"), s("hello"), arr(num(1.0), num(2.0), num(3.0)), arr(arr(num(1.0), num(2.0))),
              s("a much longer text than any array here has members")]
     for a in C15_ARRS:
